@@ -757,6 +757,16 @@ def run(out, drv, info):
             out.disagreement("add-key: new key's kdf section differs", dict(replay, model=m['kdf'], impl=im['kdf']))
         else:
             out.traces_validated += 1
+    # ---- "every key unlocks with its own password and with no other", for passwords longer than any primitive's key / block size
+    # that share a long prefix (direct oracle, shared with C06): init keys and add-key keys of every KDF
+    from .c06 import long_password_probe
+    from ..impl import access as _A
+    lp_args = [(out.seed, i, kdf, plen) for i, (kdf, plen) in enumerate((k, n) for k in _A.KDFS for n in (64, 65, 128))]
+    for a_, res in zip(lp_args, _A.run_tasks(long_password_probe, lp_args, 60)):
+        out.case({'long_password': [a_[2]['name'], a_[3]], 'created': res.get('created'), 'refused': res.get('refused')}, bool(res.get('created')))
+        out.count('longpw:' + ('created' if res.get('created') else 'refused:%s' % res.get('refused')))
+        for sig, what in res.get('violations', []):
+            out.violation('settings:' + sig, what, {'kind': 'longpw', 'seed': out.seed, 'idx': a_[1], 'kdf': a_[2], 'prefix_len': a_[3]})
     out.extra['direct_oracle_findings_by_sig'] = _sig_histogram(out)
 
 
